@@ -191,7 +191,7 @@ def group(ck, name, plans, used_all, selftest_here=False):
     with open(allc, "w") as out:
         for plan, cfg, variants, tlckw in plans:
             cases = ck.path("cases-%s.ndjson" % plan)
-            r = ck.tlc("js", "JsTokensGen", cfg, label="generator: " + plan, env={"VERIF_CASES": cases}, timeout=280, **{"workers": 4, **tlckw})
+            r = ck.tlc("js", "JsTokensGen", cfg, label="generator: " + plan, env={"VERIF_CASES": cases}, timeout=900, **{"workers": 4, **tlckw})
             if not os.path.exists(cases):
                 ck.fatal("generator %s wrote no cases" % plan)
             n = 0
